@@ -175,6 +175,63 @@ func runC42(c *core.Ctx) {
 					ok = true
 				}
 			})
+			// ... or by a method of the record called before the tests, which increases the field on every path
+			// (by 1, or by the parameter that stands for the message size)
+			if !ok {
+				for _, site := range core.CallsIn(fn, func(_ ssa.Instruction, cc *ssa.CallCommon) bool {
+					h := cc.StaticCallee()
+					return h != nil && h.Blocks != nil && h.Pkg == fn.Pkg && h != fn
+				}) {
+					cc := core.CallOf(site)
+					h := cc.StaticCallee()
+					core.Instrs(h, func(in ssa.Instruction) {
+						st, isSt := in.(*ssa.Store)
+						if !isSt {
+							return
+						}
+						fa, isFA := st.Addr.(*ssa.FieldAddr)
+						if !isFA || core.FieldOfAddr(fa).Name() != fld {
+							return
+						}
+						b, isB := st.Val.(*ssa.BinOp)
+						if !isB || b.Op != token.ADD {
+							return
+						}
+						inc := core.ExprKey(b.Y)
+						for i, p := range h.Params {
+							if ssa.Value(p) == b.Y && i < len(cc.Args) {
+								inc = core.ExprKey(cc.Args[i])
+							}
+						}
+						want := "1"
+						if fld == "sizeReceivedMessages" {
+							want = "p2"
+						}
+						if inc != want {
+							return
+						}
+						for _, hr := range core.Returns(h) {
+							if !st.Block().Dominates(hr.Block()) {
+								return
+							}
+						}
+						dom := true
+						for _, t := range tests {
+							var at ssa.Instruction = t
+							if a, via := testedAt[t]; via {
+								at = a
+							}
+							if !core.DominatesInstr(site, at) {
+								dom = false
+							}
+						}
+						if dom {
+							ok = true
+							c.Analysed(fname(h))
+						}
+					})
+				}
+			}
 			c.Check(ok, "C42/accept-only-under-quota", name+"/"+fld+"-incremented-first", r.Pos(), fld+" is increased before the limits are tested",
 				fld+" is not increased (by 1 / by the message size) before the limit tests: the tests see the load without the current message")
 		}
